@@ -96,7 +96,7 @@ func (g *Gen) smtFor(o *Obligation) string {
 	}
 	noSlice := os.Getenv("GOVC_NOSLICE") != ""
 	for i, l := range g.lines[:o.PrefixLen] {
-		if !noSlice && o.Tag >= 0 && i < len(g.lineTag) && g.lineTag[i] >= 0 && g.lineTag[i] != o.Tag && !g.tagAnc[o.Tag][g.lineTag[i]] {
+		if !noSlice && i < len(g.lineTag) && !g.isAncTag(g.lineTag[i], o.Tag) {
 			continue // produced by a block that cannot reach the obligation's block
 		}
 		if len(o.Using) > 0 && !(strings.HasPrefix(l, "(declare-") || g.boolDef[i] || (o.SinceLine >= 0 && i >= o.SinceLine)) {
